@@ -14,7 +14,8 @@
 //       the operands are evaluated once; the results of ALL permutations and ALL binary
 //       bracketings (pairwise calls) and of the n-ary call on every permutation are compared with
 //       eq and by dump.  Output:
-//           n=<combinations> classes=<distinct results by eq> TAB <form 1> => <dump 1> TAB ...
+//           n=<combinations> classes=<distinct results by eq> TAB [<pairwise>,<n-ary>] <form 1> => <dump 1> TAB ...
+//       ([p,q] = number of pairwise / n-ary constructions that gave this result)
 //       (one representative form per class; forms are recipes over $0..$n-1), followed by
 //       "TAB ops TAB <dump of operand 0> TAB ...", the
 //       distinct pairwise call records (as in T) after "TAB calls TAB", and
@@ -382,9 +383,10 @@ static std::string mode_perm(const std::string &body)
         idx[i] = i;
     std::vector<Form> classes; // one representative per eq-class
     std::vector<std::string> class_dumps;
+    std::vector<size_t> nbin, nnary; // how many pairwise / n-ary constructions fall in the class
     size_t ncomb = 0;
     bool dump_split = false; // eq but different canonical dump
-    auto account = [&](const Form &f) {
+    auto account = [&](const Form &f, bool nary) {
         ncomb++;
         std::string d = f.value.is_null() ? f.err : verif::dump_sorted(*f.value);
         for (size_t k = 0; k < classes.size(); k++) {
@@ -396,11 +398,14 @@ static std::string mode_perm(const std::string &body)
             if (same) {
                 if (class_dumps[k] != d)
                     dump_split = true;
+                (nary ? nnary[k] : nbin[k])++;
                 return;
             }
         }
         classes.push_back(f);
         class_dumps.push_back(d);
+        nbin.push_back(nary ? 0 : 1);
+        nnary.push_back(nary ? 1 : 0);
     };
     do {
         std::vector<Form> items;
@@ -408,7 +413,7 @@ static std::string mode_perm(const std::string &body)
             items.push_back(ops[i]);
         if (items.size() >= 2) {
             for (auto &f : bracketings(op, items, 0, items.size()))
-                account(f);
+                account(f, false);
         }
         Form nf;
         nf.text = "(" + op + "v";
@@ -420,15 +425,23 @@ static std::string mode_perm(const std::string &body)
         nf.text += ")";
         try {
             nf.value = nary_op(op, v);
+            if (op == "add" || op == "mul") {
+                std::string rec = op + "v";
+                for (auto &x : v)
+                    rec += " ;; " + verif::dump(*x);
+                rec += " ;; => ;; " + result_fields(nf.value);
+                if (g_calls.insert(rec).second)
+                    g_calls_out += rec + "\t";
+            }
         } catch (...) {
             nf.err = verif::exn_name();
         }
-        account(nf);
+        account(nf, true);
     } while (std::next_permutation(idx.begin(), idx.end()));
     std::ostringstream o;
     o << "n=" << ncomb << " classes=" << classes.size();
     for (size_t k = 0; k < classes.size(); k++) {
-        o << "\t" << classes[k].text << " => ";
+        o << "\t[" << nbin[k] << "," << nnary[k] << "] " << classes[k].text << " => ";
         if (classes[k].value.is_null())
             o << classes[k].err;
         else
